@@ -25,6 +25,8 @@ LEVEL_TEXT = (
     "must be unchanged (materialization payloads excepted).  Caller-owned mutable arguments (sort-term lists, column "
     "sets, sequence item lists) are mutated after each call.  The SQL of a relation must equal the SQL of its first "
     "compilation in the history; once per fresh worker process a fixed set of relations is compiled twice in the same order."
+    "  A quarter of the histories use two iteration engines only (every relation directly executable); step kind "
+    "'aliens' constructs unrelated literal objects that compare equal to used ones (1 == 1.0 == True)."
 )
 LEVEL_NOTE = "trusts: snapshot()/fingerprint() see everything the statement lists; histories <= 8 / 12 builds + <= 12 / 20 other steps"
 RULE = (
